@@ -172,8 +172,6 @@ func c08ImplOn(inst c08Instance, c c08Case) (code codes.Code, who byte, reached 
 	code = codes.Code(resp.GetStatus().GetCode())
 	who = 'a'
 	switch {
-	case resp.GetStatus().GetMessage() == "no chains matched":
-		who = '-'
 	case resp.GetDeniedResponse() != nil:
 		who = 'o'
 		loc := false
@@ -202,13 +200,17 @@ func c08CheckOn(run *ev.Run, inst c08Instance, c c08Case) {
 		run.Violation("C08 check-error", err.Error(), c)
 		return
 	}
-	if ww == '-' && wc == codes.OK {
-		ww = 'a' // a bare allow is indistinguishable from an all-allow chain
+	// compared: allowed or not; whether the answer is the OIDC filter's (redirect) or a bare denial (a mock filter's
+	// denial and the default denial are both bare and are not told apart, nor are particular status codes or
+	// messages, which the statement does not fix); how many OIDC filters were reached
+	if ww == '-' {
+		if wc == codes.OK {
+			ww = 'a'
+		} else {
+			ww = 'd'
+		}
 	}
-	if gw == '-' && gc == codes.OK {
-		gw = 'a'
-	}
-	if gc != wc || gw != ww || gr != wr {
+	if (gc == codes.OK) != (wc == codes.OK) || gw != ww || gr != wr {
 		kind := "verdict"
 		if gc == wc && gw == ww {
 			kind = "filters-evaluated-after-denial-or-skipped"
@@ -332,7 +334,10 @@ func c08ReplayFn(path string) int {
 	}
 	wc, ww, wr := c08Ref(c)
 	gc, gw, gr, _, err := c08Impl(c)
-	return replayVerdict("C08", err != nil || gc != wc || (gw != ww && !(wc == codes.OK)) || gr != wr,
+	if ww == '-' && wc != codes.OK {
+		ww = 'd'
+	}
+	return replayVerdict("C08", err != nil || (gc == codes.OK) != (wc == codes.OK) || (gw != ww && !(wc == codes.OK)) || gr != wr,
 		fmt.Sprintf("got code=%v by=%c reached=%d; reference code=%v by=%c reached=%d err=%v", gc, gw, gr, wc, ww, wr, err))
 }
 
